@@ -8,8 +8,11 @@ needed to state them over the source texts the readers accept:
 * the exception predicates (Bool, evaluated by the driver on what the REAL
   parser returns): `declStrsValid`, `paramsStrsValid`, `stageStrsValid` (F6b:
   `unquote` of a LITSTRING with an escape for an invalid UTF-8 byte yields a
-  string the printer cannot write back) and `stageMBValid` (F25: a `mem_gb` /
-  `vmem_gb` of 2^53 GB or more; `formatGB`'s `int64(gb*1024)` overflows);
+  string the printer cannot write back) and `stageMB32Valid` (F29: a `mem_gb` /
+  `vmem_gb` of 256 GB or more in magnitude, where the real parser's float32 reading of the printed
+  text can differ from the exact reading of the model; this is `wfMB`, the resource conjunct of
+  `wfStage`); `stageMBValid` (F25: 2^53 GB or more; `formatGB`'s `int64(gb*1024)` overflows) is
+  the weaker range, kept as a definition, no theorem needs it;
 * `threads`: the model reader keeps the token text, Go stores
   `roundUpTo(float32(text), 100)` and prints it with `%g`.  As for float leaves
   of value expressions, strconv/fmt are trusted: an ABSTRACT canonicaliser
@@ -158,10 +161,19 @@ def stageStrsValid (s : Stage) : Bool :=
      | some r => (match r.special with | some x => Martian.ShellQuote.validUtf8 x | none => true)
      | none => true)
 
-/-- `mem_gb` and `vmem_gb` are below 2^53 GB (2^63 MB): beyond, `formatGB` overflows (F25) -/
+/-- a value of `int64` size in MB: the range of `formatGB` (F25) -/
+def mbInt64 : Option Int → Bool
+  | some mb => decide (mb.natAbs < 2 ^ 63)
+  | none => true
+
+/-- `mem_gb` and `vmem_gb` are below 2^53 GB (2^63 MB): beyond, `formatGB` overflows (F25).  NOT a
+hypothesis of any round-trip theorem any more (the theorems need `stageMB32Valid`, F29's range, which
+is where `wfStage` holds and where the exact reading of the model is the reading of the real parser;
+`Proofs.FormatStageRange32.stageMBValid_of_32`: it is weaker); kept as the description of F25's range,
+evaluated by the driver and the negative witnesses. -/
 def stageMBValid (s : Stage) : Bool :=
   match s.res with
-  | some r => wfMB r.mem && wfMB r.vmem
+  | some r => mbInt64 r.mem && mbInt64 r.vmem
   | none => true
 
 /-- the range of `resources` before canonicalisation and before the two exceptions: the threads
@@ -232,13 +244,13 @@ def parseStage32 (src : Bytes) : Option Stage := (lexAll src).bind (pStageAllR M
 /-- … and with the threads value as Go holds it -/
 def parseStage32H (h : Bytes → Bytes) (src : Bytes) : Option Stage := (parseStage32 src).map (canonStage h)
 
-/-- `mem_gb` and `vmem_gb` are below 256 GB in magnitude: beyond, the float32 rounding of the
-printed literal can change the value (F29) -/
+/-- `mem_gb` and `vmem_gb` are below 256 GB (262144 MB) in magnitude (`wfMB`): beyond, the float32
+rounding of the printed literal can change the value (F29).  This is the resource conjunct of
+`wfStage`, and the hypothesis of ALL text-side stage theorems (exact reader and float32 reader): the
+domain where the model's exact reading equals the real parser's; F25 (`stageMBValid`) is subsumed. -/
 def stageMB32Valid (s : Stage) : Bool :=
   match s.res with
-  | some r =>
-    (match r.mem with | some mb => decide (mb.natAbs < 262144) | none => true) &&
-    (match r.vmem with | some mb => decide (mb.natAbs < 262144) | none => true)
+  | some r => wfMB r.mem && wfMB r.vmem
   | none => true
 
 end Martian.FormatStage
